@@ -118,6 +118,17 @@ def explore(run, tier):
                 v = iu.text(rng, 'latin_1', rng.randrange(0, 700))
             ents.append((t, v))
         cases.append(mk(rng, 'pkg', codecs3[n % 3], ents))
+    # SELF-SIMILAR content: a value that contains, as text, the packed form (tag, length, value) of the sub-element that
+    # follows it and does not fit the carrier any more — a carrier is cut between sub-elements, wherever else that text occurs
+    for codec in codecs3:
+        for nxt in ('777', '', 'AB', '0003'):
+            packed_next = f'0002{len(nxt):03d}{nxt}'
+            for at in (0, 5, 400):
+                first = ('5' * at + packed_next + '5' * 985)[:985]
+                cases.append(mk(rng, 'pkg', codec, [(1, first), (2, nxt), (3, 'tail')]))
+                cases.append(mk(rng, 'pkg', codec, [(1, first), (2, nxt)]))
+        # ... and a value equal to the whole text of the carrier so far
+        cases.append(mk(rng, 'pkg', codec, [(1, 'abc'), (2, '0001003abc'), (3, 'x' * 975), (4, '0001003abc')]))
     # MANY sub-elements with empty (or one-character) values in one carrier: 9 .. 140 of them
     for count in (8, 9, 10, 17, 60, 140):
         for codec in codecs3:
